@@ -16,7 +16,8 @@ impl DimensionsExtractor for SvgDimensionsExtractor {
 
     fn try_read_dimensions(&self, path: &Path) -> io::Result<Option<Dimensions>> {
         let mut content = String::new();
-        for event in svg::open(path, &mut content).unwrap() {
+        // a directory, a dangling link or an unreadable file may carry the extension as well
+        for event in svg::open(path, &mut content)? {
             if let Event::Tag(SVG, _, attributes) = event {
                 if let (Some(width_value), Some(height_value)) =
                     (attributes.get("height"), attributes.get("width"))
